@@ -96,22 +96,22 @@ def W(pid, toolchain=None):
 
 
 # ---------------------------------------------------------------------------------------------
-LEAK_ALL = leak("LK", (), 60, all_fns=True)
+LEAK_ALL = leak("LK", (), 54, all_fns=True)
 LEAK_SCOPED = leak("R3", ("ACQ-SCOPED",), 30)
 
 prop("C01",
-     [cg.rule_L1, st.rule_L2, st.rule_L4, st.rule_E1, sig.rule_O1, st.rule_N5, ts.rule_SD, ts2.rule_K1, cg.rule_K2, ts2.rule_R5, ts2.rule_R3key, ts2.rule_R1,
+     [cg.rule_L1, st.rule_L2, st.rule_L4, st.rule_E1, sig.rule_O1, sig.rule_O3, st.rule_N5, ts.rule_SD, ts2.rule_K1, cg.rule_K2, ts2.rule_R5, ts2.rule_R3key, ts2.rule_R1,
       A("rule_Y1"), A("rule_Y2")],
      "Premises of the Havender/Coffman argument, each a necessary condition visible in the code: L1 every safe function that can "
      "reach a blocking raw acquisition takes the key by value (call graph); L2 sorting collections cache get_ptrs(data) sorted "
      "ascending by lock address and block in that order; L4 the owned collection is one indivisible unit with one fixed inner "
      "enumeration; E1 every other wrapper exposes its leaf locks to the enclosing order and duplicate check (only owned-only wrappers "
-     "may present themselves as one lock); O1 no shared access to its members; SD no re-acquisition of a held receiver inside a call; L5 one key per thread "
+     "may present themselves as one lock); O1/O3 no shared access to its members, neither directly nor through a guard; SD no re-acquisition of a held receiver inside a call; L5 one key per thread "
      "(K1, K2, R5, R3k, R1); Y1/Y2 the retrying collection has one blocking site per pass reached only after the rollback.",
      "absence of deadlock as a behaviour over all schedules and programs; progress of the retry loop (livelock).")
 
 prop("C02",
-     [ts.rule_T1, ts.rule_T2, pos.rule_P1, st2.rule_D1, st.rule_M1, st.rule_E1, ts.rule_M4, A("rule_Q3"), st.rule_M2, st.rule_DELEG, st.rule_E2],
+     [ts.rule_T1, ts.rule_T2, pos.rule_P1, st2.rule_D1, st.rule_M1, st.rule_E1, ts.rule_M4, A("rule_Q3"), st.rule_M2, st.rule_DELEG, st.rule_E2, A("rule_E5")],
      "T1 every guard()/data_mut()/hold construction/protected-cell access is preceded on its path by a successful acquisition of "
      "the same receiver in the matching mode (path-sensitive typestate over every safe or acquiring function, eager arguments "
      "included); T2 user closures run only while held; P1 position k of every container guard is member k; D1 guard Deref targets "
@@ -122,12 +122,13 @@ prop("C02",
      "contract plus these rules, by argument not by check).")
 
 prop("C03",
-     [ts2.rule_R1, sig.rule_R2, LEAK_SCOPED, ts2.rule_R3key, ts2.rule_R4, ts2.rule_R5, ts.rule_M4, A("rule_E5"), A("rule_Y3")],
+     [ts2.rule_R1, sig.rule_R2, LEAK_SCOPED, ts2.rule_R3key, ts2.rule_R4, ts2.rule_R5, ts.rule_M4, A("rule_E5"), A("rule_Y3"), st.rule_M5],
      "R1 unlock-style APIs release every lock of the consumed guard before returning its key; R2 key field declared after hold "
      "fields in every guard (drop order); R3 scoped calls hold nothing at return and at every unwinding exit; R3k the key outlives "
      "the closure; R4 a failed try returns Err(key) holding nothing and without running user code; R5 guard-returning APIs move the "
      "key exactly once into the result; E5 collection-level acquisitions hold every member exactly once on success and none on "
-     "failure; Y3 the retrying collection never starts a blocking acquisition while it still holds a member.",
+     "failure; Y3 the retrying collection never starts a blocking acquisition while it still holds a member; M5 a leaf lock's "
+     "acquiring op never panics after its raw acquisition returned (the key would come back while the raw lock stays locked).",
      "the single-thread history enumeration itself (the rules are per-API invariants that make every history safe).")
 
 prop("C04",
@@ -140,7 +141,7 @@ prop("C04",
      "behaviour against concurrent holders (schedules); that the raw try really never waits (lock_api contract).")
 
 prop("C05",
-     [st.rule_M1, st.rule_M2, ts.rule_M4, LEAK_ALL, st.rule_E2, ts2.rule_R1, A("rule_Q3"), A("rule_Q4")],
+     [st.rule_M1, st.rule_M2, st.rule_M5, ts.rule_M4, LEAK_ALL, st.rule_E2, ts2.rule_R1, A("rule_Q3"), A("rule_Q4")],
      "M1 hold types release exactly once in their creation mode on their own lock field and are not Clone/Copy; M2 each HL op maps to "
      "one lock_api op of the same kind and mode; M4 every release (explicit, hold Drop, guard drop) hits a receiver the call holds "
      "in that mode; LK every lock a call acquires is released or owned by the returned guard at every exit; E2 mode purity of the "
@@ -163,7 +164,7 @@ prop("C14",
      thorough_rules=[W("C14", "nightly")])
 
 prop("C15",
-     [sig.rule_A1, sig.rule_A2, sig.rule_A3, sig.rule_A4, sig.rule_O1, ts.rule_T1, W("C15")],
+     [sig.rule_A1, sig.rule_A2, sig.rule_A3, sig.rule_A4, sig.rule_O1, sig.rule_O3, ts.rule_T1, W("C15")],
      "Auto-trait table of all manual Send/Sync impls against std's Mutex/RwLock bounds, higher-ranked closure data in every "
      "scoped signature, hold types borrow their lock, read holds have no mutable access, unsafe markers, no shared access into "
      "OwnedLockCollection, protected cells touched only under a hold (T1) - plus compile-fail witnesses with twins.",
@@ -212,7 +213,7 @@ prop("C11",
      "progress of waiting threads (schedules).")
 
 prop("C12",
-     [st.rule_Q1, st.rule_Q2, st2.rule_F5, A("rule_Q3"), A("rule_Q4")],
+     [st.rule_Q1, st.rule_Q2, st.rule_M5, st2.rule_F5, A("rule_Q3"), A("rule_Q4")],
      "Q1 every lock_api call sits in a handle_unwind try closure whose handler kills the same lock, and nowhere else; Q2 killed locks "
      "refuse (blocking ops panic, try ops return false, no raw op attempted); Q3 the algorithms' acquisition loops run inside "
      "handle_unwind with a handler releasing a prefix of the same list in the same mode; Q4 at every unwind source the handler "
